@@ -3,20 +3,43 @@
 package agreement
 
 // Shared correspondence harness of the agreement state machine (DESIGN.md 4.A; C03, C07, later
-// C01/C02/C05).  Compiled INTO the real package with `go test -tags verif -overlay`.
+// C01/C02/C05).  Compiled INTO the real package with `go test -tags verif -overlay`
+// (checks/C03.py lists the files; reuse its _HARNESS dict from another checks/Cxx.py as C07.py does).
 //
 // INTERFACE (for other builders)
-//   vsmCtx            one script context: protocol version, value/payload tables, PRNG
-//   (*vsmCtx).newValue / vote / voteEvent / bundleEvent / payloadEvent / timeoutEvent ...
-//                     constructors returning a vsmEvent = (real event, its wire term)
-//   vsmMachine        a real rootRouter + player built as service.mainLoop does for a fresh round;
-//                     submit(e) = rootRouter.submitTop with recover(); panicClass maps the Go panic
-//                     to the model's Panic class
-//   vsmRenderActions / vsmRenderState   canonical rendering (same wire format as
-//                     coq/model/AgreementRender.v: r_action / r_state)
-//   vsmRunScript      main run + C07 forks (real encode/decode) of one script -> one case line
-//   vsmGenerate       the state-aware random script generator (scenario-biased)
-// One case line = (sm params round0 (events) (obs) end (forks)); see AgreementRender.v / AgreementCheck.v.
+//   c := vsmNewCtx(version, vNewRand(salt))   one script context: protocol version, value/payload tables, PRNG
+//   pv := c.newValue(round, origPeriod, origProposerId)      fresh proposal-value backed by a REAL payload
+//   v, rank := c.mkVote(sender, r, p, step, pv)               verified vote (weight = c.weight(sender,r,p,step))
+//   c.voteEvent(verified, v, rank, vsmMeta{...}, tail) / c.bundleEvent(verified, r, p, s, pv, senders, eqPairs, meta)
+//   c.payloadEvent(verified, pv, meta) / c.timeoutEvent(fast, entropy, badProto, round)
+//   c.roundInterruptionEvent(r) / c.checkpointEvent(r, p, s, err)
+//                     each returns a vsmEvent{ev: the real event, term: its wire term, kind}
+//   m := vsmNewMachine(version, round)        a real rootRouter + player built as service.mainLoop does for a fresh
+//                     round; acts, panicClass, msg := m.submit(e.ev) = rootRouter.submitTop with recover();
+//                     m.player() is the live *player
+//   c.renderActions(acts) / c.renderState(m)  canonical rendering (wire format of coq/model/AgreementRender.v:
+//                     r_action / r_state; Go maps printed with sorted keys)
+//   c.runEvents(m, events, withDigest)        feed a list, collect observations (stops at the first panic)
+//   vsmRestore(m, acts, reflect)              the real persistence.go encode/decode round trip -> new machine
+//   c.attestVotes(nodeId, acts)               the votes a node with sender id nodeId casts for its attest actions
+//                     (as voteVerified events to deliver to the other machines and to itself)
+//   vsmGenerate(c, round0, n, scenario, prefix, stats) + (*vsmGen).caseLine(round0, maxForks)
+//                     state-aware random script generator (zz_verif_sm_gen_test.go) and the case-line writer
+//
+// N MACHINES (C01/C02/C05): make one vsmCtx and N vsmMachine values for the same round; node i has sender
+// id i+1.  A scheduler loop takes (node, event) pairs from its queues; after m[i].submit(e.ev) turn the
+// actions into new events: attest -> c.attestVotes(i+1, acts) (deliver to every node incl. i, under the
+// scheduler's drop/dup/reorder policy), assemble/repropose -> c.voteEvent(false, proposalVote, .., &pv) with a
+// fresh c.newValue(round, period, i+1), verifyVote/verifyPayload/verifyBundle -> the matching *Verified event
+// for the SAME node (see (*vsmGen).push for the conversion incl. TaskIndex), relay/broadcast -> already covered
+// by delivering the original event to the other nodes.  Record per node the event list (terms) and replay each
+// node's list through the model with check_sm / run (coq/model/AgreementCheck.v): a case line is
+// (sm params round0 (event ...) ((actions digest) ...) end (fork ...)) with forks optional ("()").
+// Crash/restore of node i = vsmRestore(m[i], lastPersistentActions, false).
+//
+// WIRE TERMS: value (id rnd oper oprop), bottom (0 0 0 0); vote (snd rnd per step value weight credRank);
+// meta (err cancelled protoErr handleNil taskIndex); events (msg verified (vote V|bundle B|payload value) meta tail),
+// (timeout fast entropy bad), (rint r), (ckpt r p s err); see AgreementRender.v for bundles/actions/state.
 //
 // Senders are addresses whose first 8 bytes are the big-endian sender id (so that
 // bytes.Compare order = id order); a proposal-value is always backed by a real payload
@@ -304,6 +327,18 @@ func (c *vsmCtx) checkpointEvent(r round, p period, s step, bad bool) vsmEvent {
 		e.Err = makeSerErrStr("vsm: disk")
 	}
 	return vsmEvent{ev: e, term: vT(vSym("ckpt"), uint64(r), uint64(p), uint64(s), bad), kind: "ckpt"}
+}
+
+// attestVotes: the verified votes of node `snd` for the attest actions in acts (multi-node simulations)
+func (c *vsmCtx) attestVotes(snd uint64, acts []action) []vsmEvent {
+	var out []vsmEvent
+	for _, a := range acts {
+		if x, ok := a.(pseudonodeAction); ok && x.T == attest {
+			v, rank := c.mkVote(snd, x.Round, x.Period, x.Step, x.Proposal)
+			out = append(out, c.voteEvent(true, v, rank, vsmMeta{hnil: true}, nil))
+		}
+	}
+	return out
 }
 
 // ---------------------------------------------------------------- machine
